@@ -17,15 +17,6 @@
 import PS.Theorems.Exact
 namespace PS
 
-def eqvVar : IVar := .named "EquivalentSingleObjective"
-def eqvInd : IVar := .ind "EquivalentIndicator"
-
-/-- every variable but the two of the weighted combination -/
-def notEquiv (v : IVar) : Bool := !(v == eqvVar) && !(v == eqvInd)
-
-/-- a configuration under which `initialize` adds nothing for the objectives (the built-in optimiser in Pareto mode) -/
-def cfgP : Config := { optimize := true }
-
 theorem objectiveFmls_cfgP (st : State) : objectiveFmls cfgP st = [] := by
   simp [objectiveFmls, cfgP]
 
@@ -34,12 +25,6 @@ theorem initFmls_split (cfg : Config) (st : State) : initFmls cfg st = initFmls 
   unfold initFmls
   rw [objectiveFmls_cfgP]
   simp
-
-def weightedTerms (st : State) : List Term := st.objectives.map (fun o => Term.mul (numT o.weight) o.target)
-
-/-- no assertion of the problem and no objective target mentions the two variables of the weighted combination -/
-def State.freshEquiv (st : State) : Bool :=
-  (initFmls cfgP st).all (fun a => a.varsIn notEquiv) && st.objectives.all (fun o => o.target.varsIn notEquiv)
 
 /-- ρ with the two variables of the weighted combination set to the value of the sum -/
 noncomputable def withEquiv (st : State) (ρ : Env) : Env :=
@@ -102,7 +87,6 @@ theorem multi_restrict (cfg : Config) (st : State) (ρ : Env) (h : Sat ρ (initF
 
 /-! ### the problem without its objectives: same assertions of its own, same valid schedules -/
 
-def State.noObj (st : State) : State := { st with objectives := [] }
 
 theorem initFmls_noObj (cfg : Config) (st : State) : initFmls cfg st.noObj = initFmls cfgP st := by
   rw [initFmls_split cfg st.noObj]
@@ -181,6 +165,14 @@ theorem C07_weighted_attainable (cfg : Config) (st : State) (hc : InCoreS st.noO
         simp [withEquiv]
       rw [this]; exact hk
 
+
+/-- the executable test for problems with several objectives is sufficient for the two theorems above -/
+theorem fragmentMultiB_sound {st : State} (hr : Reachable st) (h : st.fragmentMultiB = true) :
+    InCoreS st.noObj ∧ st.freshEquiv = true ∧ ∀ o ∈ st.objectives, o.target.plainIn st.noObj.ownI2 ownB = true := by
+  unfold State.fragmentMultiB at h
+  simp only [Bool.and_eq_true] at h
+  have w := reachable_wf st hr
+  exact ⟨fragmentB_sound_wf ⟨w.nodup, w.events, w.req_tasks⟩ h.1.1, h.1.2, fun o ho => (List.all_eq_true.1 h.2) o ho⟩
 
 /-! ### non-vacuity: the example problem of `Exact.lean` with a second objective -/
 
